@@ -266,7 +266,7 @@ func c11Gates(c *Ctx, report func(sig map[string]string, art map[string]any, nam
 	}
 	c.Coverage["gate_examples"] = examples
 	// (b) repeated runs: fresh, with previous output, with truncated previous output
-	progs := corpus.FD()
+	progs := append(corpus.FD(), corpus.FW()...)
 	pipe.Generate(progs, 16)
 	runs := 0
 	for _, it := range pipe.Items {
@@ -278,7 +278,12 @@ func c11Gates(c *Ctx, report func(sig map[string]string, art map[string]any, nam
 		for k, v := range it.GenSrc {
 			first[k] = v
 		}
-		variants := []string{"rerun-with-previous-output", "rerun-GOMAXPROCS=1", "rerun-truncated-previous-output", "rerun-GOMAXPROCS=16", "rerun-longer-stale-output"}
+		variants := []string{"rerun-with-previous-output", "rerun-GOMAXPROCS=1", "rerun-truncated-previous-output", "rerun-GOMAXPROCS=16", "rerun-longer-stale-output", "rerun-GOMAXPROCS=2", "rerun-GOMAXPROCS=5"}
+		if c.Thorough() {
+			for _, n := range []int{3, 4, 6, 7, 8, 9, 10, 11, 12, 13, 14, 15} {
+				variants = append(variants, fmt.Sprintf("rerun-GOMAXPROCS=%d", n))
+			}
+		}
 		for vi, variant := range variants {
 			if strings.Contains(variant, "truncated") {
 				for name, src := range first {
@@ -291,10 +296,8 @@ func c11Gates(c *Ctx, report func(sig map[string]string, art map[string]any, nam
 				}
 			}
 			env := []string{}
-			if strings.Contains(variant, "GOMAXPROCS=1") && !strings.Contains(variant, "16") {
-				env = append(env, "GOMAXPROCS=1")
-			} else if strings.Contains(variant, "16") {
-				env = append(env, "GOMAXPROCS=16")
+			if i := strings.Index(variant, "GOMAXPROCS="); i >= 0 {
+				env = append(env, variant[i:])
 			}
 			pipe.RunCLIEnv(it, env)
 			runs++
